@@ -152,6 +152,85 @@ fn push_iw(line: &mut String, iw: &InterporationWeight, ns: usize) {
     }
 }
 
+/// The interpolation weights a caller ends up with after a *history* of setter calls, and the history itself.
+/// Every quantity (duration, parameter[i], gv[i]) gets a final valid vector `want`; the calls arrive in a random order over
+/// the quantities (so `set_gv(i)` can precede `set_parameter(i)`), a quantity may first receive another valid vector, and
+/// updates that must be rejected (wrong count with sum 1, right count with another sum) are interleaved after a quantity's
+/// final call. What synthesis uses must be `want` (seeded changes C10h: a rejected vector was stored; C12h: `set_parameter`
+/// overwrote the GV weights). Differences between `want` and what the getters return are reported as `shist` lines.
+pub struct WantWeights { pub dur: Vec<f64>, pub par: Vec<Vec<f64>>, pub gv: Vec<Vec<f64>> }
+
+pub fn valid_weights(rng: &mut Rng, nv: usize) -> Vec<f64> {
+    loop {
+        let (w, _) = random_weights(rng, nv);
+        let mut probe = InterporationWeight::new(nv, 1);
+        if probe.set_duration(&w).is_ok() { return w; }
+    }
+}
+
+pub fn weight_history(rng: &mut Rng, e: &mut Engine, nv: usize, ns: usize) -> WantWeights {
+    let mut want = WantWeights { dur: valid_weights(rng, nv), par: (0..ns).map(|_| valid_weights(rng, nv)).collect(), gv: (0..ns).map(|_| valid_weights(rng, nv)).collect() };
+    if nv == 1 { want = WantWeights { dur: vec![1.0], par: vec![vec![1.0]; ns], gv: vec![vec![1.0]; ns] }; }
+    // slots: 0 = duration, 1+i = parameter[i], 1+ns+i = gv[i]
+    let nslots = 1 + 2 * ns;
+    let mut calls: Vec<(usize, u8)> = Vec::new(); // (slot, kind) kind 0 = throwaway valid, 1 = final, 2 = rejected
+    for sl in 0..nslots {
+        if rng.chance(0.4) { calls.push((sl, 0)); }
+        calls.push((sl, 1));
+        if rng.chance(0.5) { calls.push((sl, 2)); }
+    }
+    // shuffle, then restore per-slot order throwaway < final < rejected
+    for i in (1..calls.len()).rev() { let j = rng.below(i + 1); calls.swap(i, j); }
+    let mut per: Vec<Vec<u8>> = vec![Vec::new(); nslots];
+    for (sl, k) in &calls { per[*sl].push(*k); }
+    for v in &mut per { v.sort(); v.reverse(); } // pop() yields 0, then 1, then 2
+    let mut hist = String::new();
+    for (sl, _) in calls.clone() {
+        let kind = per[sl].pop().unwrap();
+        let w: Vec<f64> = match kind {
+            0 => valid_weights(rng, nv),
+            1 => if sl == 0 { want.dur.clone() } else if sl <= ns { want.par[sl - 1].clone() } else { want.gv[sl - 1 - ns].clone() },
+            _ => match rng.below(3) {
+                0 => { let mut w = valid_weights(rng, nv); w.push(0.0); w }                      // too long, prefix valid
+                1 if nv >= 2 => { let mut w = vec![0.0; nv - 1]; w[0] = 1.0; w }                // too short, sums to 1
+                _ => { let mut w = valid_weights(rng, nv); w[0] += 0.25; w }                    // right count, wrong sum
+            },
+        };
+        let iw = e.condition.get_interporation_weight_mut();
+        let r = if sl == 0 { iw.set_duration(&w) } else if sl <= ns { iw.set_parameter(sl - 1, &w) } else { iw.set_gv(sl - 1 - ns, &w) };
+        let name = if sl == 0 { "duration".to_string() } else if sl <= ns { format!("parameter[{}]", sl - 1) } else { format!("gv[{}]", sl - 1 - ns) };
+        hist.push_str(&format!("set_{}({:?})->{};", name, w, if r.is_ok() { "ok" } else { "err" }));
+        if kind == 2 && r.is_ok() {
+            // accepted although it should not be: C19's business; from here on this is what the caller has
+            if sl == 0 { want.dur = w } else if sl <= ns { want.par[sl - 1] = w } else { want.gv[sl - 1 - ns] = w }
+        }
+    }
+    let iw = e.condition.get_interporation_weight();
+    let same = |a: &[f64], b: &[f64]| a.len() == b.len() && a.iter().zip(b).all(|(x, y)| x.to_bits() == y.to_bits());
+    let mut report = |name: String, w: &[f64], got: &[f64]| {
+        if !same(w, got) {
+            let mut line = String::from("shist");
+            push_s(&mut line, &esc(&format!("interpolation weights {name}")));
+            push_s(&mut line, &esc(&format!("{w:?}")));
+            push_s(&mut line, &esc(&format!("{got:?}")));
+            push_s(&mut line, &esc(&hist));
+            println!("{line}");
+        }
+    };
+    report("duration".into(), &want.dur, iw.get_duration());
+    for i in 0..ns {
+        report(format!("parameter[{i}]"), &want.par[i], iw.get_parameter(i));
+        report(format!("gv[{i}]"), &want.gv[i], iw.get_gv(i));
+    }
+    want
+}
+
+pub fn push_want(line: &mut String, w: &WantWeights) {
+    push_fs(line, &w.dur);
+    for p in &w.par { push_fs(line, p); }
+    for g in &w.gv { push_fs(line, g); }
+}
+
 fn res_tok(r: &Result<(), WeightError>) -> &'static str {
     match r {
         Ok(()) => "ok",
@@ -351,25 +430,9 @@ pub fn gen_c10(seed: u64, thorough: bool) {
         let nv = vs.len();
         let identical = s % 6 >= 4;
         let mut engine = engine_of(vs.clone()).expect("compatible voices");
-        // independent weight vector per quantity
-        let mut set = |rng: &mut Rng, f: &mut dyn FnMut(&[f64]) -> Result<(), WeightError>| {
-            loop {
-                let (w, _) = random_weights(rng, nv);
-                if f(&w).is_ok() {
-                    break;
-                }
-            }
-        };
-        {
-            let iw = engine.condition.get_interporation_weight_mut();
-            set(&mut rng, &mut |w| iw.set_duration(w));
-        }
-        for i in 0..ns {
-            let iw = engine.condition.get_interporation_weight_mut();
-            set(&mut rng, &mut |w| iw.set_parameter(i, w));
-            let iw = engine.condition.get_interporation_weight_mut();
-            set(&mut rng, &mut |w| iw.set_gv(i, w));
-        }
+        // independent weight vector per quantity, reached through a history of setter calls (any order over the quantities,
+        // throwaway and rejected updates in between); the oracle gets the vectors the caller meant, not what is read back
+        let want = weight_history(&mut rng, &mut engine, nv, ns);
         let nlab = if s % 6 == 2 { rng.range(4, 8) } else { rng.range(1, 3) };
         let labels: Vec<jlabel::Label> = (0..nlab).map(|_| corpus[rng.below(corpus.len())].parse().unwrap()).collect();
         let iw = engine.condition.get_interporation_weight().clone();
@@ -378,7 +441,7 @@ pub fn gen_c10(seed: u64, thorough: bool) {
         let mut head = String::new();
         push_u(&mut head, nv);
         push_u(&mut head, ns);
-        push_iw(&mut head, &iw, ns);
+        push_want(&mut head, &want);
         push_u(&mut head, identical as usize);
         // duration
         let dur = models.duration();
